@@ -12,7 +12,9 @@ sender works on `rkey k`.  `sent`/`delivered` are history variables (linearisati
 PARTIAL, labelled: granularity is one source line (not bytecode / C level); timeouts, `sleep`,
 GC-driven `__del__` and dead `WeakMethod`s are not modelled; one thread per endpoint.
 `callback_inv` is stated for callback keys that are never disconnected and never connected without
-callbacks (`CbOnlyProg`); for plain keys the statements are unconditional.
+callbacks (`CbOnlyProg`); for plain keys the statements are unconditional: any number of socket ids per
+pair (keys are arbitrary triples), any payloads (messages are abstract identities, so plain, structured
+and falsy payloads such as "" are all covered), any disconnect–reconnect history.
 -/
 import NetqasmVerif.Lemmas.Hub
 namespace NQ.C18
@@ -255,5 +257,26 @@ example :
     let s := lastState (init progs) (runSched (init progs)
       [0, 0, 1, 1, 1, 0, 0, 0, 0, 0, 0, 0, 0, 0, 1, 1, 1, 1, 1, 1, 1, 1, 1, 1, 1])
     gotOf (1, 0, 0) (s.threads 1).res = [7, 8] ∧ s.sent (1, 0, 0) = [7, 8] := by decide
+
+/-- a disconnect–reconnect history on a plain key (the plain-channel theorems are unconditional, so they
+cover it): A connects, sends 7, disconnects, connects the same key again, sends 8; B receives [7, 8];
+the hypotheses of `chan_inv`/`exactly_once_fifo` hold for these programs and every step is enabled -/
+example :
+    let progs : List (List Op) := [[.connect 1 0 false, .send 1 0 7, .disconnect 1 0, .connect 1 0 false, .send 1 0 8],
+                                   [.connect 0 0 false, .recv 0 0 true, .recv 0 0 true]]
+    let run := runSched (init progs)
+      [0, 0, 0, 0, 1, 1, 1, 1, 1, 1, 0, 0, 0, 0, 0, 0, 0, 0, 0, 0, 0, 0, 0, 0, 0, 0, 0, 0, 0, 0,
+       1, 1, 1, 1, 1, 1, 1, 1, 1, 1]
+    let s := lastState (init progs) run
+    gotOf (1, 0, 0) (s.threads 1).res = [7, 8] ∧ s.sent (1, 0, 0) = [7, 8] ∧ run.all (·.2) = true := by decide
+
+example (t : Nat) : NoCbProg t (1, 0, 0)
+    ([[Op.connect 1 0 false, .send 1 0 7, .disconnect 1 0, .connect 1 0 false, .send 1 0 8],
+      [.connect 0 0 false, .recv 0 0 true, .recv 0 0 true]].getD t []) := by
+  intro rn id h
+  match t with
+  | 0 => simp at h
+  | 1 => simp at h
+  | (n + 2) => simp at h
 
 end NQ.C18
